@@ -33,8 +33,8 @@ def replaceMatch(match: Match, replacement: str, expand: Optional[Expand] = None
         result = match[i] or ''  # A group that did not participate in the match is blank.
         # match group text.
         result = replaceInline(result, groupExpand)
-        if not groupExpand.spans:
-            # The group may be injected into a double-quoted HTML attribute value.
+        if not groupExpand.spans and replacement.count('"', 0, m.start()) % 2 == 1:
+            # The group stands inside a double-quoted HTML attribute value of the replacement.
             result = result.replace('"', '&quot;')
         return result
     return re.sub(r'(\${1,2})(\d)', repl, replacement)
